@@ -691,6 +691,26 @@ def execute(case):
     """resolve every level of a case; -> dict(error, steps=[(cg, aa)], rejected)"""
     from cgsmiles import MoleculeResolver
     kind = case['kind']
+    from .. import contracts
+    if kind == 'ambig':
+        req = dict(requested_last_all_atom=not case['coarse'], requested_legacy=case['legacy'])
+    elif kind == 'multilevel':
+        req = dict(requested_last_all_atom=not case.get('coarse_last', False), requested_legacy=True)
+    elif kind == 'coarse_cut':
+        req = dict(requested_last_all_atom=False, requested_legacy=True)
+    else:
+        req = dict(requested_last_all_atom=True, requested_legacy=case.get('kw', {}).get('legacy', True))
+    contracts.CONTEXT.update(req)
+    try:
+        return _execute(case)
+    finally:
+        for k in req:
+            contracts.CONTEXT.pop(k, None)
+
+
+def _execute(case):
+    from cgsmiles import MoleculeResolver
+    kind = case['kind']
     try:
         if kind == 'ambig':
             r = ambig_resolver(case)
